@@ -84,10 +84,15 @@ pub fn check_conv(type_idx: usize, addr: u16, what: usize, sizes: &[usize], sche
                     return ("stopped-at-stray-reply".into(), out);
                 }
             } else if nack.map(|(n, _)| n <= attempts).unwrap_or(false) {
-                if res.is_ok() {
-                    out.push(("request-acknowledged-first", "success-without-acknowledgement".into(), format!("receive request #{} was not acknowledged but the call returned Ok", nack.unwrap().0)));
+                // success is only possible if some later request was acknowledged (asking again is the controller's
+                // choice; C10/C11 judge it): the trace predicate below then judges that transfer
+                let b0 = bus.borrow();
+                let acked = b0.sent.iter().zip(b0.replies.iter()).any(|(m, r)| matches!(m, flipdot_core::Message::RequestOperation(..)) && matches!(r, Some(flipdot_core::Message::AckOperation(..))));
+                if res.is_ok() && !acked {
+                    out.push(("request-acknowledged-first", "success-without-acknowledgement".into(), format!("receive request #{} was not acknowledged, no other request was, but the call returned Ok", nack.unwrap().0)));
                 }
-            } else if res.is_ok() == all_fail {
+            } else if res.is_ok() && all_fail {
+                // (giving up earlier than the schedule would allow is a matter of retry policy: C10/C11)
                 out.push(("result-follows-schedule", format!("{}", if what == 0 { "configure" } else { "send_pages" }), format!("schedule {:?} but the call returned {:?}", schedule, res.map_err(|e| e.to_string()))));
             }
             let b = bus.borrow();
@@ -96,7 +101,7 @@ pub fn check_conv(type_idx: usize, addr: u16, what: usize, sizes: &[usize], sche
             if what == 0 && (items[0].len() != 16 || items[0] != crate::refmodel::SIGN_TYPES[type_idx].0.to_bytes()) {
                 out.push(("configuration-is-the-16-byte-block", "block".into(), "sign type block is not 16 bytes".into()));
             }
-            out.extend(transfer_predicate(&b.sent, &b.replies, own, op, &items, match nack { Some((n, _)) if n <= attempts => n, _ => attempts }));
+            out.extend(transfer_predicate(&b.sent, &b.replies, own, op, &items, match nack { Some((n, _)) if n <= attempts => None, _ => Some(attempts) }));
         }
     }
     (outcome, out)
@@ -148,7 +153,7 @@ pub fn check_after_abort(type_idx: usize, addr: u16, first: &[usize], abort_at: 
             let b = bus.borrow();
             let (op, items_owned): (Operation, Vec<Vec<u8>>) = if what2 == 0 { (Operation::ReceiveConfig, vec![typ.to_bytes().to_vec()]) } else { (Operation::ReceivePixels, pages2.iter().map(|p| p.as_bytes().to_vec()).collect()) };
             let items: Vec<&[u8]> = items_owned.iter().map(|v| &v[..]).collect();
-            for (clause, class, detail) in transfer_predicate(&b.sent[cut..], &b.replies[cut..], own, op, &items, 1) {
+            for (clause, class, detail) in transfer_predicate(&b.sent[cut..], &b.replies[cut..], own, op, &items, Some(1)) {
                 out.push((clause, format!("after-aborted-transfer:{}", class), format!("second transfer on a Sign whose first transfer was aborted at chunk {}: {}", abort_at, detail)));
             }
             ("judged".into(), out)
